@@ -240,6 +240,23 @@ pub mod verif_exec {
         cell.borrow().tasks[i].verif_state()
     }
 
+    /// (token_available, blocked_in_park) of task i
+    pub fn task_park(cell: &RefCell<ExecutionState>, i: usize) -> (bool, bool) {
+        cell.borrow().tasks[i].verif_park()
+    }
+
+    pub fn yield_requested(cell: &RefCell<ExecutionState>) -> bool {
+        cell.borrow().has_yielded
+    }
+
+    pub fn set_task_waiter(st: &mut ExecutionState, i: usize, waiter: Option<usize>) {
+        st.tasks[i].verif_set(false, false, false, waiter);
+    }
+
+    pub fn set_task_park(st: &mut ExecutionState, i: usize, token_available: bool, blocked_in_park: bool) {
+        st.tasks[i].verif_set(false, token_available, blocked_in_park, None);
+    }
+
     pub fn any_max_steps() -> MaxSteps {
         match kani::any::<u8>() % 3 {
             0 => MaxSteps::None,
